@@ -738,6 +738,10 @@ func init() {
 		}
 		replayDrivers[unit] = func(cc *checkCtx, rec *obRecord, f *Failure) map[string]interface{} {
 			res := map[string]interface{}{"attempted": false}
+			if sc := httpStatusTextScenario(rec.o.Name); sc != "" {
+				res["inputs"] = map[string]interface{}{"scenario": sc}
+				return runDriver(cc, modulePath+"/httpgrpc", fmt.Sprintf(httpStatusTextDriver, sc), res)
+			}
 			if !strings.Contains(rec.o.Name, "a_handlers_context_error_has_the_matching_code") {
 				res["reason"] = "no replay scenario for this obligation"
 				return res
@@ -819,3 +823,86 @@ func init() {
 		return runDriver(cc, modulePath+"/inprocgrpc", inprocHandlerEOFDriver, res)
 	}
 }
+
+func httpStatusTextScenario(ob string) string {
+	switch {
+	case strings.Contains(ob, "the_status_message_can_be_carried_by_the_frame"):
+		return "stream-message-invalid-utf8"
+	case strings.Contains(ob, "the_status_message_survives_the_header"):
+		return "unary-message-crlf"
+	case strings.Contains(ob, "trailer_values_can_be_carried_by_the_frame"):
+		return "stream-bin-trailer-not-utf8"
+	}
+	return ""
+}
+
+const httpStatusTextDriver = `package httpgrpc
+
+import (
+	"context"
+	"net/http"
+	"net/http/httptest"
+	"net/url"
+	"testing"
+
+	"google.golang.org/grpc"
+	"google.golang.org/grpc/codes"
+	"google.golang.org/grpc/metadata"
+	"google.golang.org/grpc/status"
+	"google.golang.org/protobuf/types/known/emptypb"
+)
+
+// Texts that the HTTP encodings of this package cannot carry. The solver's model
+// only says "a text for which the carrier predicate is false"; these are such texts.
+func TestZZGovcReplay(t *testing.T) {
+	scenario := %q
+	msg, trailerVal := "not found", "v"
+	switch scenario {
+	case "stream-message-invalid-utf8":
+		msg = "bad \xff utf8"
+	case "unary-message-crlf":
+		msg = "line one\nline two "
+	case "stream-bin-trailer-not-utf8":
+		trailerVal = "\xff\xfe"
+	}
+	mux := http.NewServeMux()
+	mux.Handle("/svc/U", HandleMethod(struct{}{}, "svc", &grpc.MethodDesc{MethodName: "U", Handler: func(srv interface{}, ctx context.Context, dec func(interface{}) error, _ grpc.UnaryServerInterceptor) (interface{}, error) {
+		return nil, status.Error(codes.NotFound, msg)
+	}}, nil))
+	mux.Handle("/svc/S", HandleStream(struct{}{}, "svc", &grpc.StreamDesc{StreamName: "S", ServerStreams: true, Handler: func(srv interface{}, ss grpc.ServerStream) error {
+		ss.SetTrailer(metadata.Pairs("k-bin", trailerVal))
+		if scenario == "stream-bin-trailer-not-utf8" {
+			return nil
+		}
+		return status.Error(codes.NotFound, msg)
+	}}, nil))
+	svr := httptest.NewServer(mux)
+	defer svr.Close()
+	u, _ := url.Parse(svr.URL)
+	ch := &Channel{Transport: http.DefaultTransport, BaseURL: u}
+	if scenario == "unary-message-crlf" {
+		err := ch.Invoke(context.Background(), "/svc/U", &emptypb.Empty{}, &emptypb.Empty{})
+		if got := status.Convert(err).Message(); got != msg {
+			t.Fatalf("GOVC-REPLAY: VIOLATED unary handler returned NotFound with message %%q; the caller sees message %%q", msg, got)
+		}
+		return
+	}
+	cs, err := ch.NewStream(context.Background(), &grpc.StreamDesc{StreamName: "S", ServerStreams: true}, "/svc/S")
+	if err != nil {
+		t.Fatalf("NewStream: %%v", err)
+	}
+	cs.SendMsg(&emptypb.Empty{})
+	cs.CloseSend()
+	err = cs.RecvMsg(&emptypb.Empty{})
+	switch scenario {
+	case "stream-message-invalid-utf8":
+		if status.Code(err) != codes.NotFound {
+			t.Fatalf("GOVC-REPLAY: VIOLATED streaming handler returned NotFound with a message that is not valid UTF-8; the caller sees %%v (code %%v): the whole final frame was lost", err, status.Code(err))
+		}
+	case "stream-bin-trailer-not-utf8":
+		if got := cs.Trailer()["k-bin"]; err == nil || err.Error() != "EOF" || len(got) != 1 || got[0] != trailerVal {
+			t.Fatalf("GOVC-REPLAY: VIOLATED streaming handler succeeded after setting trailer k-bin=%%q; the caller sees err=%%v trailers=%%q", trailerVal, err, got)
+		}
+	}
+}
+`
